@@ -277,6 +277,16 @@ ASSUME F(SW("x", TRUE, "-", DQ(P("@"))), S(Unset, Unset, <<"a", "b  b", "cc">>, 
 ASSUME F(SW("x", TRUE, "-", DQ(P("@"))), S(Val(""), Unset, <<"a", "b  b", "cc">>, DefaultIfs)) = <<"a", "b  b", "cc">>
 ASSUME F(SW("x", TRUE, "-", DQ(P("@"))), S(Val("bar"), Unset, <<"a", "b  b", "cc">>, DefaultIfs)) = <<"bar">>
 
+\* --- XCU 2.6: field splitting follows all expansions of the word, so it uses the IFS
+\* the word itself assigned:  unset IFS; x='a:b c'; printf '[%s]' ${IFS=:}$x  ->  [][a][b c]
+ASSUME LET o == One(SW("IFS", FALSE, "=", L(":")) \o P("x"), S(Val("a:b c"), Unset, <<>>, NoIfs))
+       IN o.f = <<"", "a", "b c">> /\ o.ifs = Val(":")
+ASSUME F(P("x") \o SW("IFS", TRUE, "=", L(":")), S(Val("a:b c"), Unset, <<>>, Ifs(""))) = <<"a", "b c">>
+ASSUME F(SW("IFS", TRUE, "=", L(":")) \o P("x"), S(Val("a:b c"), Unset, <<>>, Ifs(" "))) = <<"a:b", "c">>
+\* "$*" joins with the IFS in force where it is expanded
+ASSUME F(DQ(P("*")) \o SW("IFS", FALSE, "=", L("-")), S(Unset, Unset, <<"a", "b">>, NoIfs)) = <<"a b">>
+ASSUME F(SW("IFS", FALSE, "=", L("-")) \o DQ(P("*")), S(Unset, Unset, <<"a", "b">>, NoIfs)) = <<"", "a-b">>
+
 \* --- read.md / read-p.sh ------------------------------------------------------
 RL(s) == [i \in 1..Len(s) |-> [c |-> SubSeq(s, i, i), esc |-> FALSE]]
 Esc(c) == <<[c |-> c, esc |-> TRUE]>>
